@@ -473,6 +473,12 @@ def ins_lattice(seed, quick, resume_subsets=True):
         assigns.append({"model": "G2tilt"})
         assigns.append({"model": "G2tilt", "draw_iid_live": False, "reparameterisation": None})
         assigns.append({"min_remove": 5})
+        # sizes that are equal by default are made to differ: initial samples vs nlive vs per-level draws
+        assigns.append({"n_initial": 120})
+        assigns.append({"n_initial": 30, "draw_iid_live": False})
+        assigns.append({"n_update": 20})
+        assigns.append({"n_initial": 80, "n_update": 35, "reset_flow": 2})
+        assigns.append({"reset_flow": False})
         # combinations that leave fewer than min_samples above the threshold (training-set clause of C17)
         assigns.append({"draw_iid_live": False, "n_update": 45, "min_samples": 20})
         assigns.append({"draw_iid_live": True, "n_update": 45, "min_samples": 20})
